@@ -224,7 +224,7 @@ class Check(PropertyCheck):
     pid = "C12"
     props_module = "Properties.Properties_C12"
     extra_targets = ["Extract/ExtractLock.vo"]
-    gen_files = ["LockProg.v"]
+    gen_files = ["LockProg.v", "OwnProg.v"]
     trusted_base = [
         "Coq 8.16.1 kernel (coqc); vm_compute for C12_globals (the verified checker run on the regenerated program); no native_compute",
         "axioms: none (Print Assumptions: closed under the global context)",
@@ -233,8 +233,14 @@ class Check(PropertyCheck):
         "thread creation/joining orders memory: accesses of a thread before its first pthread_create / after its last pthread_join "
         "([Join true] marks, computed by position) are exempt against the threads it creates; signal handler vs main thread on volatile sig_atomic_t",
         "mutexes give mutual exclusion; pthread_cond_wait = unlock+lock; flockfile(stderr) is a mutex; libc state (stderr, errno, FILE) is libc's business",
-        "pointer accesses are heap classes named after the pointee type; only the classes of LockConfig.heap_locked are checked, the rest relies on "
-        "the ownership invariant (Lock/Ownership.v, abstract model; not tied to the C text)",
+        "pointer accesses are heap classes named after the pointee type; the classes of LockConfig.heap_locked are checked by the lockset part, "
+        "objects owned by one task at a time by the ownership part: translator lib/gen_own.py (hand-over skeleton Gen/OwnProg.v of the worker / "
+        "reader / writer threads, every call into process.c/compress.c/expand.c inlined; policy tables OWN_RECORDS / SHARED_RECORDS / queue_lock "
+        "in that file; rules and refusals in its docstring) + verified checker Lock/OwnCheck.v (own_sound)",
+        "ownership part, outside the skeleton: objects reached through structs of other modules (struct bitstream: the reference-counted input "
+        "buffer of expand.c between attach() and detach()), memory lifetime of published objects (complete/legitimate, ref_count), codec functions "
+        "of other modules do not retain pointer arguments, sub-objects (p->f buffers) travel with their parent object, "
+        "primary_thread outside worker_thread_proc() (ordered by thread creation/joining; the translator checks that it touches no object there)",
         "expand.c:par is excluded: protected by the parse_token hand-over, not by a mutex",
         "function-pointer calls go to the functions named in the static initialisers of struct task / struct process / struct thread_entry",
     ]
@@ -436,6 +442,37 @@ class Check(PropertyCheck):
             if len(samples) < 4 and ast_roots:
                 samples.append({"function": "%s:%s" % key, "globals_accessed": sorted(ast_roots),
                                 "lock_ops": {k: v for k, v in m.counts[fq].items() if v}})
+        # (5) ownership translator (lib/gen_own.py): per function reached from a thread entry, the number of
+        # queue-macro uses, allocations and free() calls in the text vs the ones it recognised
+        try:
+            import gen_own
+            T = self.own_model()
+            hist["own_functions_inlined"] = len(T.inlined_funcs)
+            hist["own_events_compared"] = 0
+            for key, (body, line) in text_funcs.items():
+                fq = ast_funcs.get(key)
+                if fq is None or fq not in T.inlined_funcs:
+                    continue
+                b = re.sub(r"\bTrace\s*\(\(.*?\)\)\s*;", " ", body, flags=re.S)
+                pats = {nm: r"\b%s\s*\(" % nm for nm in gen_own.QUEUE_MACROS}
+                pats["alloc"] = r"\b(?:XMALLOC|XNMALLOC|xmalloc|malloc|calloc|pqueue_init|deque_init)\s*\("
+                pats["free"] = r"\b(?:free|pqueue_uninit|deque_uninit)\s*\("
+                for what, pat in pats.items():
+                    nt = len(re.findall(pat, b))
+                    na = len(T.seen.get((fq, what), ()))
+                    evals += 1
+                    hist["own_events_compared"] += 1
+                    if nt or na:
+                        nontrivial.add("%s:%s" % key)
+                    if nt != na:
+                        mism.append("%s:%s: %s occurs %d times in the text, %d recognised by gen_own" % (key[0], key[1], what, nt, na))
+            hist["own_skeleton"] = {"variables": len(T.var_names), "queues": len(T.queues), "sites": len(T.sites),
+                                    "inlined_instances": T.stats["inlined"],
+                                    "sub_object_fields": {k: sorted(v) for k, v in T.subs.items()},
+                                    "field_aliases": ["%s.%s=%s" % (k[0], k[1], v) for k, v in T.alias.items()]}
+        except Exception as ex:
+            if not any(b.what.startswith("Gen/OwnProg.v") for b in self.broken):
+                self.broken.append(Broken("translator", "gen_own.translate", "%s: %s" % (type(ex).__name__, ex)))
         # accesses hidden in macros whose text does not name the variable are not expected
         for x in only_ast:
             mism.append("transcription has an access the text does not show: " + x)
@@ -762,9 +799,59 @@ class Check(PropertyCheck):
             self.broken.append(Broken("direct", "TSan run exited abnormally", json.dumps(self.public(r))))
         return viols
 
+    # ---- ownership part: diagnosis with the translator's reference checker ------------
+    def own_model(self):
+        if not hasattr(self, "_own"):
+            import gen_own
+            self._own = gen_own.translate(vlib.REPO)
+        return self._own
+
+    def own_search(self):
+        """which hand-over rule the current source breaks (the verdict is Coq's own_check; this is the
+        same algorithm in python, used only to name the site)"""
+        import gen_own
+        viols = []
+        try:
+            T = self.own_model()
+        except Exception as ex:
+            if any(b.what.startswith("Gen/OwnProg.v") for b in self.broken):
+                viols.append(Violation("ownership:untranslatable",
+                                       "the hand-over skeleton of the current source cannot be transcribed: %s" % str(ex)[:300],
+                                       {"error": str(ex)}, found_input=False))
+            return viols
+        diags = gen_own.diagnose(T)
+        reports = [r for r in getattr(self, "tsan_runs", []) if r["report"]]
+        seen = set()
+        for scen, thread, site, msg in diags:
+            key = site or msg
+            if key in seen:
+                continue
+            seen.add(key)
+            fn_line = (site or "").rsplit(":", 1)
+            fn = fn_line[0].split(":")[-1] if site else ""
+            hit = None
+            for r in reports:
+                for block in r["report"].split("=================="):
+                    if "ThreadSanitizer" in block and fn and re.search(r"\b%s\b" % re.escape(fn), block):
+                        hit = (r, block)
+                        break
+                if hit:
+                    break
+            payload = {"scenario": scen, "thread": thread, "site": site, "rule": msg,
+                       "how": "cd /verif && VERIF_REPO=%s ./check C12   (python3 lib/gen_own.py %s prints the same diagnosis)" % (vlib.REPO, vlib.REPO)}
+            summary = "heap ownership (scenario %s, thread %s) at %s: %s" % (scen, thread, site or "?", msg)
+            if hit:
+                r, block = hit
+                payload["tsan_report"] = block[:6000]
+                payload["tsan_run"] = self.public(r)
+                payload["input_zlib_b64"] = self.pack_input(r["_input"])
+                summary += "; exhibited by ThreadSanitizer: lbzip2 %s (%s), LBZIP2_VERIF_SCHED=%d" % (" ".join(r["args"]), r["kind"], r["seed"])
+            viols.append(Violation("ownership:" + (site or msg[:60]), summary, payload, found_input=bool(hit)))
+        return viols[:6]
+
     # ---- search -----------------------------------------------------------------
     def search(self):
-        viols = []
+        viols = self.own_search()
         res = None
         try:
             res = self.run_extracted()
